@@ -19,6 +19,7 @@ import (
 	"errors"
 	"fmt"
 	"io"
+	"math"
 	"net/http"
 	"strconv"
 	"strings"
@@ -422,13 +423,20 @@ func restDecodeTimeout(timeout string) (time.Duration, error) {
 	if err != nil {
 		return 0, fmt.Errorf("invalid timeout %q: %w", timeout, err)
 	}
-	return time.Duration(val * float64(time.Second)), nil
+	if val < 0 || math.IsNaN(val) || math.IsInf(val, 0) {
+		return 0, fmt.Errorf("invalid timeout %q: must be a finite, non-negative number of seconds", timeout)
+	}
+	nanos := math.Round(val * float64(time.Second))
+	if nanos >= math.MaxInt64 {
+		return time.Duration(math.MaxInt64), nil
+	}
+	return time.Duration(nanos), nil
 }
 
 // Encode timeout as a float in seconds for X-Server-Timeout header.
 func restEncodeTimeout(timeout time.Duration) string {
-	if timeout == 0 {
-		return ""
+	if timeout <= 0 {
+		return "0"
 	}
 	return strconv.FormatFloat(timeout.Seconds(), 'f', -1, 64)
 }
